@@ -184,7 +184,9 @@ def check(ctx):
     run = R.method('run')
     g3 = cfg_of(run)
     puts = g3.find(lambda n: method_call(n, 'put'))
-    ok = len(puts) == 1 and norm(puts[0][1].func.value) == 'self._rxQueues[packet.function.value]' and [norm(a) for a in puts[0][1].args] == ['packet']
+    # the queue is looked up by the packet's own function value: `self._rxQueues[k]` or `self._rxQueues.get(k)`, possibly through a local
+    recv = norm(g3.expand_locals(puts[0][0], puts[0][1].func.value, pure_only=False, keep=('packet',))) if len(puts) == 1 else None
+    ok = len(puts) == 1 and recv in ('self._rxQueues[packet.function.value]', 'self._rxQueues.get(packet.function.value)') and [norm(a) for a in puts[0][1].args] == ['packet']
     ctx.inst('R5', run, 'route-by-own-function', ok, 'a packet is put on the queue keyed by its own function value; found %s' % [norm(c) for _, c in puts])
     rd_ = [s for s in walk_own(run.node) if isinstance(s, ast.Assign) and norm(s.targets[0]) == 'packet']
     ctx.inst('R5', run, 'one-read-per-iteration', len(rd_) == 1 and norm(rd_[0].value) == 'self._transport.readPacket()', 'one transport read per loop iteration')
